@@ -201,3 +201,12 @@ PROPS['C09'] = {
     'bounds': {'quick': 'depth 3, one fault per operation (pairs arise across consecutive operations)', 'thorough': 'depth 4-5, up to two faults inside one operation'},
     'technique': 'exhaustive fault enumeration: every k-th fault point of every operation in every reachable small state, on the real code, explored by the choice-tree explorer',
 }
+
+PROPS['C16'] = {
+    'title': 'CounterRemover and ConditionalRemover detach listeners exactly when promised',
+    'level': 'model_checking',
+    'parts': [{'src': 'harness/removers.cpp', 'prefix': 'C16/', 'variants': ['g17'], 'quick_variants': ['g17O0'], 'defs': ['VERIF_SUB=%d' % i]} for i in range(4)],
+    'rule': 'BFS over histories on CallbackList, EventDispatcher, EventQueue (trigger = enqueue+process, nested = dispatch), HeterCallbackList, HeterEventDispatcher: add through CounterRemover with n in {1,2,3,0,-1,-2} x {append, prepend, insert}, add through ConditionalRemover with condition outcome sequences {true at 1st/2nd/3rd evaluation, never} x {condition with / without arguments} x {append, prepend}, plain listeners, removal by handle, trigger; the wrapped listener takes PROG choices (re-dispatch the same event up to depth 3, remove itself by handle, remove a neighbour); helper objects are temporaries (destroyed before the first trigger); model: wrapped listener invoked on exactly the first max(n,1) triggers / up to and including the first true condition, condition evaluated exactly once per trigger with the trigger argument',
+    'assumptions': H_ASSUME,
+    'bounds': {'quick': '<=3 listeners, <=2 wrapped, depth 4, 1 nested action per step', 'thorough': 'depth 5-6, 2 nested actions per step'},
+}
